@@ -19,10 +19,11 @@ TECHNIQUE = (
     "by an independent parser of the compressed option"
 )
 LEVEL_TEXT = (
-    "Held (apart from listed findings) on every generated case: every AEAD algorithm of oscore.algorithms, all admissible "
-    "sender/recipient ID length pairs, ID contexts of 0/1/8/255 bytes or none, Partial IVs of 1..5 bytes, ~2e3 (quick) / "
-    "~5e4 (thorough) context-pair scenarios with ~1e6 / ~3e7 manipulated messages; says nothing about Group OSCORE, EDHOC, "
-    "Appendix B.2 or messages outside the generators' classes."
+    "Held (apart from the mechanism-keyed findings) on every generated case: every AEAD algorithm of oscore.algorithms (12; A128CBC is "
+    "not an AEAD and is refused by protect()), all admissible sender/recipient ID length pairs, ID contexts of 0/1/8/255 bytes or none, "
+    "Partial IVs of 1..5 bytes; 1.6e3 (quick) / 4.8e4 (thorough) context-pair scenarios with 1.9e6 / 5.7e7 unprotect attempts on "
+    "genuine, manipulated, cross-paired and foreign-key messages; says nothing about Group OSCORE, EDHOC, Appendix B.2, Proxy-Uri "
+    "(protect() refuses it) or messages outside the generators' classes."
 )
 LEVEL_NOTE = (
     "Trusted: harness/refcodec.py, harness/oscore_c11ref.py (self-tested on RFC 8613 Appendix C vectors each run), the "
